@@ -257,6 +257,26 @@ static void c01_roundtrip(const TypeOps& t, Prepared& p, const std::vector<size_
       } else if (ok) {
         R.outcome("round-trip-ok");
       }
+      // the stream loop `T v; while (Read(&v)) ...`: two consecutive values read into ONE destination object; the object
+      // must hold the second value afterwards (C11 explores prior states in depth, this is its shadow inside C01)
+      if (ok && idx.size() == 2) {
+        Obj one(t);
+        void* same[2] = {one.p, one.p};
+        RIn in2 = r.run(bytes.data(), bytes.size(), same, 2);
+        R.add("evaluations");
+        R.add("reused_destination_reads");
+        std::string why2;
+        if (in2.err)
+          R.viol("C01|read-failed-reused-destination|" + r.name + "|" + ename(in2.err) + "|" + shape(t.sch) + tags(t.sch), idf(),
+                 "reading two consecutive values into the same object failed with " + std::string(ename(in2.err)) + " at value #" + std::to_string(in2.failed_at),
+                 detail(t, p.vals[idx[in2.failed_at]], kv("bytes", hex(bytes))));
+        else if (!compare_back(t, p.norm[idx[1]], one, &why2))
+          R.viol("C01|value-mismatch-reused-destination|" + r.name + "|" + shape(t.sch) + tags(t.sch), idf(),
+                 "second of two consecutive values read into the same object: " + why2, detail(t, p.vals[idx[1]], kv("bytes", hex(bytes))));
+        else if (in2.consumed != bytes.size())
+          R.viol("C01|consumed-mismatch-reused-destination|" + r.name + "|" + shape(t.sch) + tags(t.sch), idf(),
+                 "reader consumed " + std::to_string(in2.consumed) + " bytes, written " + std::to_string(bytes.size()), detail(t, p.vals[idx[1]]));
+      }
     }
   }
   // all writers must agree with the reference bytes (ties the C01 pairing matrix to C03/C17)
